@@ -90,7 +90,9 @@ pub fn reconstruct(cfg: &CfgReq, nhandles: usize, log: &Log, fin: &[f64], out: &
         return None;
     }
     let s0 = match log.scores[0] {
-        Some(s) if s.is_finite() => s,
+        // (an infinitely bad but DEFINED score is a score: every proposal with a finite score is better, a
+        // proposal without a score is still never accepted — only generated for the C07 search)
+        Some(s) if s.is_finite() || s == f64::NEG_INFINITY => s,
         _ => return None, // not a valid input state
     };
     let full = 2 + (loops * inner) as usize;
